@@ -122,7 +122,7 @@ FaultExp(op, a) ==
     [] op = "stream.split" ->
          LET full == [lens |-> [i \in DOMAIN a.units |-> Len(UnitEnc(a.units[i]))],
                       units |-> [i \in DOMAIN a.units |-> UnitEnc(a.units[i])]]
-         IN IF HasPdu(a.units) /\ Len(a.units) > 1 THEN [anyof |-> <<full, ExpRej(DocFams)>>] ELSE full
+         IN IF HasPdu(a.units) /\ Len(a.units) > 1 THEN [anyof |-> <<full, [rej |-> DocFams, late |-> TRUE]>>] ELSE full
     [] op = "rob.decode" ->
          IF a.full # <<>> /\ StrictPrefixOf(a.octets, a.full) /\ RobExact(a.ep, a.full, a.par)
          THEN ExpRej(DocAll)
@@ -288,6 +288,16 @@ RobGridPart(i) ==
     [] i = 12 -> RobBoth("uslp.hdr", UslpHdrEnc(UslpHdrSample), [trunc |-> 0], 7) \cup RobBoth("uslp.thdr", UslpHdrEnc(UslpTruncSample), [trunc |-> 1], 4)
                  \cup RobBoth("uslp.hdr", UslpHdrEnc([UslpHdrSample EXCEPT !.vcflen = 7, !.vcf = VcfOf(7)]), [trunc |-> 0], 7)
                  \cup RobCuts("uslp.htype", UslpHdrEnc(UslpHdrSample), NoPar)
+                 \* every combination of optional zones (a check that only covers the OCF / FECF leaves the insert zone open)
+                 \cup UNION {RobCuts("uslp.frame", FrameEnc(g), [mp |-> MatchingParams(g, "var")]) :
+                             g \in {[FrameSampleVar EXCEPT !.iz = z, !.ocf = o, !.fecf = e, !.hdr = h] :
+                                      z \in {<<>>, << <<201, 202, 203>> >>}, o \in {<<>>, << <<11, 12, 13, 14>> >>},
+                                      e \in {<<>>, << <<21, 22>> >>}, h \in {UslpHdrSample}}}
+                 \cup UNION {RobCuts("uslp.frame", FrameEnc(g), [mp |-> MatchingParams(g, "var")]) :
+                             g \in {[FrameSampleTrunc EXCEPT !.iz = z, !.fecf = e] : z \in {<<>>, << <<201, 202, 203>> >>}, e \in {<<>>, << <<21, 22>> >>}}}
+                 \cup UNION {RobCuts("uslp.frame", FrameEnc(g), [mp |-> MatchingParams(g, "fixed")]) :
+                             g \in {[FrameSampleFixed EXCEPT !.iz = z, !.ocf = o, !.fecf = e] :
+                                      z \in {<<>>, << <<201, 202, 203>> >>}, o \in {<<>>, << <<11, 12, 13, 14>> >>}, e \in {<<>>, << <<21, 22>> >>}}}
                  \cup UNION {RobBoth("uslp.frame", FrameEnc(ff[1]), [mp |-> MatchingParams(ff[1], ff[2])], 12) :
                              ff \in {<<FrameSampleFixed, "fixed">>, <<FrameSampleVar, "var">>, <<FrameSampleTrunc, "var">>,
                                      <<[FrameSampleFixed EXCEPT !.tfdz = <<>>, !.iz = <<>>], "fixed">>}}
